@@ -51,7 +51,7 @@ COL_NAMES = ["group", "g", "g1", "g_2", "grp 3", "", "группа", "a_b", "lab
 
 
 def n_cases(tier):
-    return 400 if tier == "quick" else 6000
+    return 960 if tier == "quick" else 6000
 
 
 # --------------------------------------------------------------------------------------
